@@ -325,9 +325,39 @@ func init() {
 		ID: "C04", Level: "fault_enumeration",
 		Rule: "seeded persisted states produced by a real history (1-5 JobConfigs created and re-scheduled through the real webhooks at chosen instants so that spec.schedule.lastUpdated is what the mutation stamps, status.lastScheduled written at chosen instants, notBefore/notAfter windows) with instants placed exactly at, one second before and after the downtime threshold and each other; maxDowntimeThresholdSeconds in {0(default),1,60,300,3600,86400}, maxMissedSchedules in {default,1,5,100}; then 1-3 crash/restart cycles: a fresh production cron controller (cache from a full list, Init) is started at an instant swept around the schedule (sub-second offsets, downtime below / at / above the threshold) and ticked 3-27 times; " +
 			"non-trivial = at least one JobConfig had a due time between its lower bound and the restart instant; distinct = distinct (bound classes, downtime classes, population size, restarts, threshold)",
-		Assumptions: []string{"end-to-end crash/restart with the JobConfig controller maintaining lastScheduled is exercised by the C02/C20 simulations (monitor C04 there)", "cronexpr.Next trusted as in C01"},
+		Assumptions: []string{"end-to-end crash/restart with the JobConfig controller maintaining lastScheduled is exercised by the C02/C20 simulations (monitor C04 there) and by this check's e2e phase", "cronexpr.Next trusted as in C01"},
 		Cases:       tierN(1500, 120000),
 		Run:         runC04,
+		Phases:      []core.Phase{{Name: "e2e", Run: c04E2E, Count: tierN(4, 16)}},
 		MinDistinct: 5,
 	})
+}
+
+// c04E2E: end-to-end crash/restart of the whole controller set (cron worker, cron reconciler,
+// JobConfig controller maintaining status.lastScheduled) in the deterministic simulation; the
+// monitor compares every schedule request of a restarted controller with what was persisted at
+// its start.
+func c04E2E(env *core.Env, res *core.Result) {
+	silenceLogs()
+	n := 40
+	if env.Tier == "thorough" {
+		n = 400
+	}
+	spec := &simSpec{ID: "C04", EvalKeys: []string{"C04"}, NonTrivial: func(w *sim.World) bool { return w.Mon.Evals["C04"] > 0 }}
+	for k := 0; k < n; k++ {
+		i := 1000000 + env.From*n + k
+		r := env.Rand(i)
+		sc := c02Case(env.CaseSeed(i), modes[k%len(modes)])
+		sc.Prof.DupRequests = 0
+		sc.Opt.Faults = &sim.RandomFaults{Pct: 6, Kinds: []sim.FaultKind{sim.FCrashBefore, sim.FCrashAfter, sim.F500Before}, R: rand.New(rand.NewSource(sc.Opt.Seed ^ 0x4)), Until: 400, Crashes: 3}
+		sc.Note = "crash/restart end to end"
+		_ = r
+		w := sim.NewWorld(sc.Opt)
+		wl := sim.Gen(rand.New(rand.NewSource(sc.Opt.Seed)), sc.Prof)
+		w.Script(wl.Ops)
+		w.Run()
+		w.Mon.Fixpoint()
+		res.Cases++
+		collect(spec, env, i, sc, w, wl, res)
+	}
 }
